@@ -244,6 +244,69 @@ fn c06_run(ctx: &Ctx, batch: usize, nb: usize, rep: &mut Report) {
             c06_report(rep, "replace_all", &s, &p, &r, 0, 0);
         }
     }
+    // the search core alone on longer strings: all subjects up to length 12 (13) and all patterns of length 4..8 (9) over
+    // {a,b}: table-driven searches (border / failure tables) only go wrong for nested borders, which need this size
+    {
+        let (ls, lp) = if ctx.tier == Tier::Thorough { (13, 9) } else { (12, 8) };
+        let ss = all_strings(&[97, 98], ls);
+        let ps: Vec<Vec<u32>> = all_strings(&[97, 98], lp).into_iter().filter(|p| p.len() >= 4).collect();
+        for s in ss.iter().filter(|s| s.len() >= 9) {
+            item += 1;
+            if item % nb != batch {
+                continue;
+            }
+            beat();
+            for p in ps.iter().filter(|p| p.len() <= s.len()) {
+                rep.inc("search_core_pairs");
+                c06_report(rep, "indexof", s, p, &[], 0, 0);
+                c06_report(rep, "indexof", s, p, &[], 1, 0);
+                c06_report(rep, "replace_all", s, p, &[122], 0, 0);
+            }
+        }
+    }
+    // many distinct letters: patterns made of k = 1..14 different characters (and with one of them repeated), in texts
+    // that put every short prefix over {first letter, last letter, a stranger} in front of the occurrence
+    {
+        let letters: Vec<u32> = (0..14u32).map(|i| 0x61 + i).collect();
+        let stranger = 0x23u32;
+        for k in 1..=letters.len() {
+            for variant in 0..3 {
+                let mut pat: Vec<u32> = letters[..k].to_vec();
+                if variant == 1 {
+                    pat.push(letters[0]);
+                } else if variant == 2 && k >= 2 {
+                    pat.insert(1, letters[k - 1]);
+                }
+                let pre_alpha = [letters[0], letters[k - 1], stranger];
+                for pre in all_strings(&pre_alpha, 3) {
+                    for suf in [vec![], vec![stranger], vec![letters[k - 1]]] {
+                        item += 1;
+                        if item % nb != batch {
+                            continue;
+                        }
+                        rep.inc("distinct_letter_cases");
+                        let mut t = pre.clone();
+                        t.extend(&pat);
+                        t.extend(&suf);
+                        for f in ["contains", "suffixof", "prefixof"] {
+                            c06_report(rep, f, &t, &pat, &[], 0, 0);
+                        }
+                        for i in 0..=2 {
+                            c06_report(rep, "indexof", &t, &pat, &[], i, 0);
+                        }
+                        c06_report(rep, "replace", &t, &pat, &[stranger], 0, 0);
+                        c06_report(rep, "replace_all", &t, &pat, &[], 0, 0);
+                        // near miss: the text without the last character of the occurrence
+                        let mut t2 = pre.clone();
+                        t2.extend(&pat[..pat.len() - 1]);
+                        t2.extend(&suf);
+                        c06_report(rep, "contains", &t2, &pat, &[], 0, 0);
+                        c06_report(rep, "indexof", &t2, &pat, &[], 0, 0);
+                    }
+                }
+            }
+        }
+    }
     for (alpha, ls, lp, lr) in c06_alphabets(ctx.tier) {
         let ss = all_strings(&alpha, ls);
         let ps = all_strings(&alpha, lp);
@@ -557,6 +620,17 @@ fn c08_texts(tier: Tier, f: &mut dyn FnMut(usize, &str)) {
             }
         }
     }
+    // (2b) every leading hex digit (both cases) of 4-, 5- and 6-digit escapes: the value test must be a comparison with
+    // 0x2FFFF, whatever the bit pattern of the leading digit
+    for lead in "0123456789abcdefABCDEF".chars() {
+        for rest in ["000", "fff", "0000", "ffff", "0001", "8000", "FFFF", "00000"] {
+            for (open, close) in [("\\u{", "}"), ("\\u", ""), ("x\\u{", "}y")] {
+                let t = format!("{}{}{}{}", open, lead, rest, close);
+                f(idx, &t);
+                idx += 1;
+            }
+        }
+    }
     // (3) two consecutive escape attempts (state carried from an abandoned attempt into the next one)
     let at = attempts(&['1', 'F'], if tier == Tier::Thorough { 6 } else { 5 });
     let second = attempts(&['0', '4', 'f'], 4);
@@ -673,6 +747,50 @@ fn c08_run(ctx: &Ctx, batch: usize, nb: usize, rep: &mut Report) {
         rep.inc("critical_strings");
         if let Some(m) = c08_print_case(s) {
             rep.violation("C08", "c08", json!({"kind": "print", "s": s}), m);
+        }
+    }
+    // long strings: a critical tail right after n plain (1-, 2- or 4-byte) characters, n around every power of two up
+    // to 4096 (buffered or block-wise printing and parsing)
+    let tails: Vec<Vec<u32>> = vec![
+        "\\u{41}".chars().map(|c| c as u32).collect(),
+        "\\u0041".chars().map(|c| c as u32).collect(),
+        vec![0x5c],
+        vec![0x5c, 'u' as u32],
+        vec![0x22],
+        vec![0x22, 0x22],
+        vec![0x7f],
+        vec![MAX_CHAR],
+    ];
+    let mut k = 0usize;
+    for pow in [16usize, 32, 64, 128, 256, 512, 1024, 2048, 4096] {
+        for n in pow - 9..=pow + 2 {
+            for fill in [0x61u32, 0xe9, 0x1F600] {
+                if fill != 0x61 && n % 3 != 0 && pow < 1024 {
+                    continue;
+                }
+                for tail in &tails {
+                    k += 1;
+                    if k % nb != batch {
+                        continue;
+                    }
+                    let mut sv: Vec<u32> = vec![fill; n];
+                    sv.extend(tail);
+                    sv.push(0x62);
+                    rep.add("evaluations", 2);
+                    rep.inc("long_strings");
+                    if let Some(m) = c08_print_case(&sv) {
+                        let short: String = m.chars().take(300).collect();
+                        rep.violation("C08", "c08", json!({"kind": "print", "s": sv}), format!("string of {} x {:#x} + {:?} + 'b': {}", n, fill, tail, short));
+                    }
+                    // the same characters as a literal text for the parser (where they are valid Rust characters)
+                    if let Some(text) = sv.iter().map(|&c| char::from_u32(c)).collect::<Option<String>>() {
+                        if let Some(m) = c08_parse_case(&text) {
+                            let short: String = m.chars().take(300).collect();
+                            rep.violation("C08", "c08", json!({"kind": "parse", "text": text}), format!("text of {} x {:#x} + {:?} + 'b': {}", n, fill, tail, short));
+                        }
+                    }
+                }
+            }
         }
     }
 }
@@ -883,7 +1001,40 @@ fn c09_run(ctx: &Ctx, batch: usize, nb: usize, rep: &mut Report) {
             c09_viol(rep, pubj(json!({"kind": "order", "a": a, "b": b})), c09_order_case(a, b));
         }
     }
-    // to_int: mixed strings
+    // order on long strings that differ in two (or three) places: every transposition of a 16..34-character string
+    // against the string itself and against another transposition (differences that cancel in block-wise folds)
+    for len in [15usize, 16, 17, 31, 32, 33, 34] {
+        let base: Vec<u32> = (0..len as u32).map(|i| 0x61 + (i * 7) % 5).collect();
+        let mut vars: Vec<Vec<u32>> = vec![base.clone()];
+        for i in 0..len {
+            for j in i + 1..len {
+                if base[i] != base[j] && (j - i <= 3 || j % 8 == 7 || i % 16 == 0) {
+                    let mut v = base.clone();
+                    v.swap(i, j);
+                    vars.push(v);
+                }
+            }
+        }
+        for (ai, a) in vars.iter().enumerate() {
+            if !mine(&mut item) {
+                continue;
+            }
+            beat();
+            for (bi, b) in vars.iter().enumerate() {
+                if ai == 0 || bi == 0 || (ai + bi) % 11 == 0 {
+                    rep.inc("transposition_pairs");
+                    c09_viol(rep, pubj(json!({"kind": "order", "a": a, "b": b})), c09_order_case(a, b));
+                }
+            }
+        }
+    }
+    // to_int: mixed strings (0x130, 0x2030, 0x10039: characters whose low byte is an ASCII digit)
+    for s in all_strings(&[0x30, 0x39, 0x2f, 0x3a, 0x61, 0x130, 0x2030, 0x10039], if th { 5 } else { 4 }) {
+        if !mine(&mut item) {
+            continue;
+        }
+        c09_viol(rep, pubj(json!({"kind": "to_int", "s": s})), c09_to_int_case(&s));
+    }
     for s in all_strings(&[0x30, 0x39, 0x2f, 0x3a, 0x61], if th { 6 } else { 4 }) {
         if !mine(&mut item) {
             continue;
@@ -1251,7 +1402,7 @@ fn c17_run(ctx: &Ctx, batch: usize, nb: usize, rep: &mut Report) {
         x += if th { 97 } else { 1009 };
     }
     // integer constructors
-    let ints: Vec<u32> = vec![0, 0x61, MAX_CHAR, 0x30000, 0x3FFFF, 0x40000, 0xFFFD, 0x10FFFF, 0x110000, u32::MAX];
+    let ints: Vec<u32> = vec![0, 0x61, MAX_CHAR, 0x30000, 0x3FFFF, 0x40000, 0xFFFD, 0x10FFFF, 0x110000, u32::MAX, 0xD800, 0xDFFF];
     for v in all_strings(&ints, 3) {
         if !mine(&mut item) {
             continue;
